@@ -192,11 +192,35 @@ def _make(arrangement):
                     foreign_result.append(call(A, env_for("/a/" + pb, qb, "cb", "hb"))[0][0][0][:3])   # same app, other thread
                 finally:
                     stubs.SimThreads.cur = "T0"
-        elif arrangement in ("alternating", "shared_errors_map") or arrangement.startswith("default_outer"):
+        elif arrangement in ("alternating", "shared_errors_map", "status_phrase") or arrangement.startswith("default_outer"):
             foreign = lambda A: None         # (default_outer*: set below, the default application is the outer party)
         else:
             raise ValueError(arrangement)
 
+        if arrangement == "status_phrase":
+            # application A answers with a status code unknown to http.client and a reason phrase of its own; application
+            # B then answers with the same code as a bare int: B's status line is what B alone shows for such a code
+            # (reference: the neighbouring unknown code on an application of its own, served BEFORE A's phrase exists)
+            def status_app(value):
+                app = ombott.Ombott()
+
+                def h():
+                    app.response.status = value
+                    return (app.response.status_line or "") + "|" + str(app.response.status_code)
+                app.route("/s", callback=h)
+                return app
+            code, other = (520, 521) if si == 0 else (598, 597)
+            ref = call(status_app(other), env_for("/s", "", "c", "h"))
+            ra = call(status_app("%d Phrase-of-A-%s" % (code, pa)), env_for("/s", "", "c", "h"))
+            rb = call(status_app(code), env_for("/s", "", "c", "h"))
+            want = (ref[0][0][0].replace(str(other), str(code)), ref[1].replace(str(other).encode(), str(code).encode()))
+            if (rb[0][0][0], rb[1]) != want:
+                return "application B set status %d and shows %r / %r after application A used a phrase of its own; alone %r" % (
+                    code, rb[0][0][0], rb[1], want)
+            if not ra[0][0][0].startswith("%d Phrase-of-A-" % code):
+                return "application A lost its own reason phrase: %r" % (ra[0][0][0],)
+            cover("ok")
+            return None
         if arrangement == "shared_errors_map":
             # two applications with the default configuration: DefaultConfig.errors_map (and the HTTPError objects in it)
             # is shared by every application of the process; A answers a malformed body for a JSON client, then B for a browser
@@ -259,7 +283,7 @@ def _make(arrangement):
 
 
 ARR = ["nested", "nested_json_error", "copy", "construct", "construct_request", "default_app", "default_outer",
-       "default_outer_json_error", "alternating", "shared_errors_map", "threads"]
+       "default_outer_json_error", "alternating", "shared_errors_map", "status_phrase", "threads"]
 
 
 def queries(tier):
